@@ -66,6 +66,18 @@ class CheckC15(core.Check):
         sessions.add_convert(c, stateless=st)
         steps = []
         cnt = [0, 0]
+        # control: two plain messages per direction before any rekey. If these already differ from the model's AEAD
+        # the build does not conform at the primitive level (C01/C18's business) and the case is not judged.
+        for d in (0, 1):
+            w, r = ("A", "B") if d == 0 else ("B", "A")
+            for j in range(2):
+                kk = 1000 + 2 * d + j
+                kw = {"n": cnt[d]} if st else {}
+                lw = c.op("st_write" if st else "t_write", w, pay="gen:10:p%d" % kk, buf=BIG, out="m%d" % kk, **kw)
+                steps.append((lw, "w", w, d, kk))
+                lr = c.op("st_read" if st else "t_read", r, msg="$m%d" % kk, buf=BIG, **kw)
+                steps.append((lr, "r", r, d, kk))
+                cnt[d] += 1
         for k, i in enumerate(int(x) for x in seqs.split(".")):
             sym = SYMS[i]
             if sym[0] == "w":
